@@ -340,7 +340,7 @@ def discoverMayDie (fixed : Bool) (sent reqs : Nat) : Bool :=
 
 /-- repaired variant (hooks/C16-fix-startworkconn-addr.patch): an address that does not resolve is not stored.
     `false` = the code as it is in /repo now. -/
-def startWorkAddrIsFixed : Bool := false
+def startWorkAddrIsFixed : Bool := true
 
 /-- what net.ResolveTCPAddr made of host:port -/
 inductive AddrRes | v4 | v6 | bad
@@ -403,7 +403,7 @@ def handleStartWork (fixed : Bool) (ver : PPVer) (srcGiven srcHasDot : Bool) (sr
 
 /-- repaired variant (hooks/C16-fix-udp-forward-send.patch): the send is wrapped in errors.PanicToError, as in
     Forwarder.  `false` = the code as it is in /repo now. -/
-def udpForwardSendIsFixed : Bool := false
+def udpForwardSendIsFixed : Bool := true
 
 structure Fwd where
   sockOpen : Bool := true
